@@ -10,6 +10,7 @@ pub mod c11;
 pub mod c12;
 pub mod c13;
 pub mod c14;
+pub mod c15;
 pub mod c16;
 
 use crate::report::CaseOut;
@@ -28,6 +29,7 @@ pub fn plan(prop: &str, tier: &str) -> Option<u64> {
         "C12" => c12::plan(tier),
         "C13" => c13::plan(tier),
         "C14" => c14::plan(tier),
+        "C15" => c15::plan(tier),
         "C16" => c16::plan(tier),
         _ => return None,
     })
@@ -47,6 +49,7 @@ pub fn run_case(prop: &str, tier: &str, seed: u64, idx: u64) -> CaseOut {
         "C12" => c12::run_case(tier, seed, idx),
         "C13" => c13::run_case(tier, seed, idx),
         "C14" => c14::run_case(tier, seed, idx),
+        "C15" => c15::run_case(tier, seed, idx),
         "C16" => c16::run_case(tier, seed, idx),
         _ => panic!("unknown property {prop}"),
     }
